@@ -29,6 +29,7 @@ from sa.astutil import dump, where, kwargs_of, walk_no_nested
 from sa.model import body_nodoc
 from sa.vn import VN, Poly, VNUnknown, comparable
 from rules import c05
+from sa.report import RuleProxy
 
 HAPLO = "pybrops.core.util.haplo"
 PROB = "pybrops.breed.prot.sel.prob."
@@ -647,7 +648,7 @@ def _check_builder(prog, rep, f):
 def check_reductions(prog, rep):
     R = "R6-reduce"
     # optimal haploid value chunks: shared rule (C05-R6-chunks), reported here under R6-reduce
-    sub = _Proxy(rep, {"R6-chunks": R})
+    sub = RuleProxy(rep, {"R6-chunks": R})
     _ohv_running_max(prog, rep)
     c05.check_chunks(prog, sub)
     # optimal population value
@@ -786,43 +787,6 @@ def _ohv_running_max(prog, rep):
             rep.violate("R6-reduce", f.qualname, "the maximum over a cross's parents folds columns %s of %s up to `%s`, not up to the number of parents %s.shape[1]: "
                         "parents beyond it are ignored (or a missing column is indexed) whenever the number of parents differs from it" % (j, tab, bound, tab),
                         where(f, lp), "range(1, %s.shape[1])" % tab, dump(lp.iter))
-
-
-class _Proxy:
-    """re-label rules of a shared rule set"""
-
-    def __init__(self, rep, rename):
-        self._rep, self._rename = rep, rename
-
-    def __getattr__(self, k):
-        return getattr(self._rep, k)
-
-    def _r(self, rule):
-        return self._rename.get(rule, rule)
-
-    def ok(self, rule, *a, **k):
-        if rule in self._rename:
-            return self._rep.ok(self._r(rule), *a, **k)
-
-    def violate(self, rule, *a, **k):
-        if rule in self._rename:
-            return self._rep.violate(self._r(rule), *a, **k)
-
-    def unrec(self, rule, construct, why):
-        if rule in self._rename:
-            # a reformulation already classified as a violation is not also an analysis error
-            if any(v["rule"] == self._r(rule) and v["construct"] == construct for v in self._rep.violations):
-                return
-            return self._rep.unrec(self._r(rule), construct, why)
-
-    def floor(self, rule, n):
-        pass
-
-    def info(self, *a, **k):
-        pass
-
-    def saw(self, f):
-        return self._rep.saw(f)
 
 
 def run(prog, rep, tier):
